@@ -76,7 +76,7 @@ PROPS = {
         anchor_files=["variants/Variant.go"],
         rule="A case is one history of 2-24 (x size class) operations over 4 variant handles and 2 caller-owned slices (with and without spare capacity): construct "
              "from each host type (int, int32, uint, uint32, int64, float32, float64, bool, string, time.Time, time.Duration, []*Variant, *Variant, Variant by value, "
-             "nil, struct, []int, map, fixed-size array, pointer, function, ...), typed setters, SetAsObject, SetAsArray followed by mutation of or appends to the "
+             "nil, struct, []int, map, fixed-size array, pointer, typed nil pointer, nil *Variant, function, ...), typed setters, SetAsObject, SetAsArray followed by mutation of or appends to the "
              "caller's slice, SetByIndex within and past the end, SetLength, Assign, Clone, Clear, in-place change of an element object, one element object at two "
              "positions, nested rows (one row twice, clone, near-copy), nesting up to 200 deep, Equals in both directions; observation per run after every "
              "operation, every k-th, or only at the end: every handle is read back (Type, typed accessor, Length, GetByIndex, IsNull). Non-trivial: at least "
@@ -114,8 +114,9 @@ PROPS = {
              "function that fails or panics by its argument (panic values include typed nil errors, values whose Error()/String() panic, runtime errors, structs), "
              "per-task function collections that disagree about a name, a variable whose Value() is nil referenced where its value is never looked at, a string "
              "variable compared with a time span / date / number / boolean whose values over the variable sets are texts equal up to letter case or blanks that do "
-             "not convert alike ('1h' / '1H'), and (0.6 % of these runs) 130-320 tasks with one evaluation each under round-robin with a quantum of 1-6 steps, so "
-             "that all are in flight at once. Also without a schedule: one instance evaluated 3-10 times in a row with its default variables and explicit sets in a seeded order, and one template rendered under seeded map iteration orders. Non-trivial: at least one context "
+             "not convert alike ('1h' / '1H'), a variable holding an Object (a value of the caller's own type) as left operand of =, <>, IN, and (0.6 % of these runs) 130-320 tasks with one evaluation each under round-robin with a quantum of 1-6 steps, so "
+             "that all are in flight at once. Also without a schedule: one instance evaluated 3-10 times in a row with its default variables and explicit sets in a seeded order (templates with "
+             "three orders of the setters: automatic variables off before SetTemplate, or on with the caller's default map handed over afterwards, complete or lacking a name), and one template rendered under seeded map iteration orders. Non-trivial: at least one context "
              "switch happened while tasks were inside library code (scheduled scenarios) or at least 3 evaluations (sequential ones). Distinct: hash of (scenario, setup, tasks, executed schedule).",
         state_measure="not applicable (no model state: evaluation is compared with the sequential result); see distinct_schedules and distinct_switch_site_pairs",
         probes=["scenario_shared-calculator", "scenario_shared-template", "scenario_separate", "scenario_map-order-repeat", "map_order_case_colliding", "order_conc_first", "scenario_sequential-repeat", "variables_edited_between_evaluations"],
@@ -141,7 +142,9 @@ PROPS = {
              "SetReader + NextToken loop with 0-3 HasNextToken calls before each fetch) and, in fault runs, a fault at a seam (scanner panics at "
              "call k, stream ends after k characters, consumer abandons after j tokens, operations manager / variable / function delegate fails, a function that "
              "calls back into the calculator that is calling it). Calculators are also evaluated through their own default collections, after the default "
-             "functions were edited (a standard function replaced or removed), with and without setting the expression again; CSV tokenizers are also "
+             "functions were edited (a standard function replaced or removed) or the default variables emptied, with and without setting the expression (or the "
+             "calculator's own current text) again; parsers, calculators and templates are also given token lists: the parser's own, one token, the first two "
+             "glued, or what a tokenizer in its default configuration gives (blanks, comments, Eof); CSV tokenizers are also "
              "reconfigured through their getters (list read, changed in place, handed back) - the fresh reference gets the resulting list through a plain setter call. "
              "The first two steps of the first instance sweep ordered pairs of the pool. Every step is compared with a fresh instance given the "
              "same step and, for pool inputs without fault, with the result computed at process start. Non-trivial: at least two steps. "
@@ -164,7 +167,7 @@ PROPS = {
              "RemoveByName, Clear, ClearValues, SetValue, change of a value object in place; names that collide case-insensitively, among them case pairs whose "
              "two cases differ in UTF-8 length and names containing format verbs) on a VariableCollection or FunctionCollection against an "
              "ordered-list model, or (b) 2-12 operations on one calculator / template: SetExpression / SetTemplate with generated text whose identifier "
-             "roles the generator knows (variables, quoted identifiers, functions, keywords in random case, string constants, comments, section words), "
+             "roles the generator knows (variables, quoted identifiers - also ones spelled like keywords and constants -, functions, keywords in random case, string constants, comments, section words), "
              "SetAutoVariables, edits and removals in the default collection, Evaluate, EvaluateUsingVariables with one name left out. Observation per run "
              "after every operation, every k-th, or only at the end. Non-trivial: at least 3 operations with at least one state change. "
              "Distinct: hash of (scenario, operation list).",
@@ -219,7 +222,8 @@ PROPS = {
         rule="A case is one run inside a testing/synctest bubble: 1-3 tasks with 1-6 operations each - Now(), Ticks(), Rnd()/Random() (1-5 draws), "
              "Date(y,m,d[,h,mi,s]), DayOfWeek(Date(y,m,d)), a call of one of the 37 registered names in random letter case with 0-8 seeded arguments of "
              "every variant type, a delegate that panics (with a text, an error, a typed nil error, a value whose Error()/String() panics, a runtime error, a "
-             "struct, an uncomparable value) - each called either through IFunction.Calculate or through an expression; the scheduler "
+             "struct, an uncomparable value), removals from and additions to another default collection while this task's own added functions must stay its own "
+             "- each called either through IFunction.Calculate or through an expression; the scheduler "
              "interleaves the tasks at yield points and advances the fake clock by 0, 1 ns, 999 ms, 1 s, 1 h, 36 h, 400 d or 30 y before resuming a task "
              "(also in the middle of an evaluation); time.Local is a fixed zone between -12 h and +14 h or (30%) a named zone with daylight saving from the embedded tzdata, with dates biased to transition days; one run in 500 makes 2 million Rnd() draws. Non-trivial: a clock- or zone-dependent call "
              "was checked or a function was called through the seam. Distinct: hash of (tasks, configuration, executed schedule with jumps).",
